@@ -47,6 +47,8 @@ Definition ev_toks (e : ev) : list tok :=
   | EvClose => [TS "close"]
   | EvClientGone => [TS "client_gone"]
   | EvRecycle => [TS "recycle"]
+  | EvInterim => [TS "interim"]
+  | EvUpgrade => [TS "upgrade"]
   end.
 
 Definition cause_of (n : string) : option cause :=
@@ -69,6 +71,9 @@ Definition input_of (t : tok) : list input :=
     else if n =? "req_body_end" then [IReqBodyEnd]
     else if n =? "connect_ok" then [IConnect None]
     else if n =? "req_sent" then [IReqSent]
+    else if n =? "back_100" then [IBack1xx false]
+    else if n =? "back_103" then [IBack1xx true]
+    else if n =? "back_101" then [IBack101]
     else if n =? "back_partial" then [IBackPartial]
     else if n =? "back_head" then [IBackHead]
     else if n =? "back_end" then [IBackEnd]
@@ -99,7 +104,7 @@ Definition step_op (st : rstate) (op : list tok) : rstate * list tok :=
       match args with
       | [TN sst; TN ph; TN ka; TN fc; TN bc; TN pend; TN iw; TN ew] =>
         let s' := mkS (state_of sst) (s_attempts s) (zb fc) (phase_of ph) (zb bc) (zb pend) (zb ka)
-                      (s_origin s) (s_done s) (s_clean s) (s_ropen s) in
+                      (s_origin s) (s_done s) (s_clean s) (s_ropen s) (s_interim s) in
         let c' := mkC (c_h2 c) (zb iw) (zb ew) (c_ftimer c) (c_btimer c) (c_closed c) in
         (mkr s' c', st_toks s' c')
       | _ => bad end
